@@ -7,8 +7,11 @@ import (
 	"fmt"
 	"os"
 	"path/filepath"
+	"runtime/pprof"
 	"strings"
 	"time"
+
+	"golang.org/x/tools/go/ssa"
 
 	"gosym/smt"
 	"gosym/sym"
@@ -47,11 +50,20 @@ func run(args []string) {
 	budget := fs.Duration("budget", 0, "wall-time budget per harness (0 = none)")
 	out := fs.String("out", "", "write JSON results to this file")
 	trace := fs.Bool("trace", false, "trace executed instructions")
+	mergefull := fs.Bool("merge", false, "merge differing states at equal configurations under fresh selector variables (symbolic schedule)")
+	races := fs.String("races", "refine", "data races: refine (promote racy accesses to scheduling points and re-run) | violation | ignore")
 	nomerge := fs.Bool("nomerge", false, "do not merge states (debugging)")
 	nofeas := fs.Bool("nofeas", false, "skip feasibility checks at forks")
 	unwind := fs.Int("unwind", 300, "loop unwinding bound per frame")
+	progress := fs.Bool("progress", false, "print progress lines")
+	cpuprof := fs.String("cpuprofile", "", "write CPU profile")
 	smtlog := fs.String("smtlog", "", "log solver dialogue to file")
 	fs.Parse(args)
+	if *cpuprof != "" {
+		f, _ := os.Create(*cpuprof)
+		pprof.StartCPUProfile(f)
+		go func() { time.Sleep(20 * time.Second); pprof.StopCPUProfile(); f.Close() }()
+	}
 
 	ov := &sym.Overlay{Repo: *repo, Files: map[string][]byte{}, Source: map[string]string{}}
 	for _, d := range append([]string{filepath.Join(*verif, "vrt/common"), filepath.Join(*verif, "vrt/sym"), filepath.Join(*verif, "models")}, hdirs...) {
@@ -80,24 +92,52 @@ func run(args []string) {
 		if len(want) > 0 && !want[h.Name()] {
 			continue
 		}
-		s, err := smt.New(*solver, *timeout, *smtlog)
-		if err != nil {
-			fatal(err)
+		var r *sym.HarnessResult
+		promoted := map[ssa.Instruction]bool{}
+		racesSeen := map[string]string{}
+		rounds := 0
+		for {
+			s, err := smt.New(*solver, *timeout, *smtlog)
+			if err != nil {
+				fatal(err)
+			}
+			e := sym.NewEngine(l.Prog, s)
+			if err := e.Install(l); err != nil {
+				fatal(err)
+			}
+			e.RaceCheck = *races != "ignore"
+			e.RaceIsViolation = *races == "violation"
+			e.Promote(promoted)
+			e.TraceExec = *trace
+			e.NoMerge = *nomerge
+			e.MergeFull = *mergefull
+			e.FeasCheck = !*nofeas
+			e.Unwind = *unwind
+			e.WitnessWanted = true
+			e.Progress = *progress
+			if *budget > 0 {
+				e.Deadline = time.Now().Add(*budget)
+			}
+			r = e.RunHarness(h)
+			s.Close()
+			for k, v := range e.Races {
+				racesSeen[k] = v
+			}
+			newRace := false
+			for in := range e.RaceInstrs {
+				if !promoted[in] {
+					promoted[in] = true
+					newRace = true
+				}
+			}
+			rounds++
+			if *races != "refine" || !newRace || rounds >= 4 || len(r.Violations) > 0 {
+				break
+			}
+			fmt.Fprintf(os.Stderr, "%s: %d racy accesses promoted to scheduling points, re-running (round %d)\n", h.Name(), len(promoted), rounds+1)
 		}
-		e := sym.NewEngine(l.Prog, s)
-		if err := e.Install(l); err != nil {
-			fatal(err)
-		}
-		e.TraceExec = *trace
-		e.NoMerge = *nomerge
-		e.FeasCheck = !*nofeas
-		e.Unwind = *unwind
-		e.WitnessWanted = true
-		if *budget > 0 {
-			e.Deadline = time.Now().Add(*budget)
-		}
-		r := e.RunHarness(h)
-		s.Close()
+		r.Races = racesSeen
+		r.RefineRounds = rounds
 		results = append(results, r)
 		fmt.Fprintf(os.Stderr, "%-50s %-12s configs=%d trans=%d merges=%d sel=%d paths=%d queries=%d (%.2fs solver) wall=%.2fs\n",
 			h.Name(), r.Verdict, r.Stats.Configs, r.Stats.Transitions, r.Stats.Merges, r.Stats.Selectors, r.Stats.Completed, r.Queries, r.SolverSecs, r.WallSecs)
